@@ -201,6 +201,16 @@ def run(ctx):
     if not (BUF and OUT and CH):
         raise AnalysisError('anchor vanished: args2cmd backslash buffer / output list / char loop (%s, %s, %s)' % (BUF, OUT, CH))
 
+    # the backslash buffer is per argument: it is (re)initialised inside the loop over the arguments
+    arg_loops = [n for n in ast.walk(c.node) if isinstance(n, ast.For) and txt(n.target) != CH and
+                 any(isinstance(x, ast.For) and txt(x.target) == CH for x in ast.walk(n))]
+    if not arg_loops:
+        raise AnalysisError('anchor vanished: args2cmd loop over the arguments')
+    resets = [st for st in arg_loops[0].body if isinstance(st, ast.Assign) and any(txt(t) == BUF for t in st.targets)
+              and isinstance(st.value, (ast.List, ast.Call))]
+    ctx.ob('T18.buf', c.fq, 'the pending-backslash buffer `%s` starts empty for every argument (reset inside the loop over the arguments)'
+           % BUF, bool(resets), loc=loc(c, arg_loops[0]))
+
     class OneArg(Quiet):
         def unroll(self, stmt):
             if isinstance(stmt, ast.For) and txt(stmt.target) != CH:
